@@ -98,6 +98,25 @@ def exclusion_class(schema):
     return "json-guard"
 
 
+def py_field_ok(f):
+    """mirror of `fieldPyOk` (lean/BpModel/PyDict.lean); compared with the driver's answer on every batch"""
+    if (f.repeated and f.optional) or (f.repeated and f.group is not None) or (f.optional and f.group is not None):
+        return False
+    if f.ty == "map":
+        return (not f.repeated and not f.optional and f.group is None and not f.wraps and f.mapK == "string"
+                and f.mapV not in ("bytes", "map") and (f.mapV != "message" or f.mapVKind.startswith("u")))
+    if f.ty == "message":
+        if f.wraps:
+            return not f.repeated and not f.optional and f.wraps not in ("message", "map", "bytes") and f.group is None
+        return f.group is None and not f.optional and not (f.repeated and not f.kind.startswith("u"))
+    return not f.wraps
+
+
+def py_schema_ok(schema, cname):
+    c04 = _c04()
+    return all(py_field_ok(f) and c04.key_invertible(f.name, cname) for m in schema for f in m.fields)
+
+
 def oracle(chk, b, v, build, in_dom, inp):
     """the round trip on the real code; returns {casing: (dict or exception, result or exception)}"""
     from props.c01 import presence
@@ -225,11 +244,14 @@ def stage(chk, drv, nbatches, nvals=6):
         "Cls().from_pydict(m.to_pydict()) returns an equal message with the same bytes and presence")
     for bi in range(nbatches):
         b = PBatch(rng, "y%d" % bi, nvals, repaired=(bi % 2 == 0))
-        okS, okV = {}, [False] * len(b.values)
+        okS = {c: py_schema_ok(b.schema, c) for c in ("camel", "snake")}
+        okV = [True] * len(b.values)       # constructor-built values of bpgen are typed (the driver says so when it runs)
         if drv:
             assert drv.ask1(b.schema_line()) == "ok"
             r = drv.ask(["WF PYOK %s camel" % b.sid, "WF PYOK %s snake" % b.sid] +
                         ["WF WT %s %s" % (b.sid, bpgen.term(v)) for v in b.values])
+            if okS != {"camel": r[0] == "1", "snake": r[1] == "1"}:
+                chk.disagree("pydict: schema guard pyDictOk vs its Python mirror", {"schema": b.schema_line()}, r[:2], okS)
             okS = {"camel": r[0] == "1", "snake": r[1] == "1"}
             okV = [x == "1" for x in r[2:]]
         items = []
